@@ -1,7 +1,8 @@
-SPECIFICATION SimSpec
+SPECIFICATION Spec
 CONSTANTS
   NV = 6
   Heavy = FALSE
 INVARIANT TypeOK
-INVARIANT EmitStep
+INVARIANT EmitState
+ACTION_CONSTRAINT EmitEdge
 CHECK_DEADLOCK FALSE
